@@ -167,7 +167,8 @@ def run(ctx, report: Report) -> None:
         while todo:
             f = todo.pop()
             for c in rev.get(f, ()):
-                if c not in seen and c != 'css_match.CSSMatch.match_selectors':
+                # callers are followed upwards, but not through match_defined: what calls match_defined uses the prefix for :defined
+                if c not in seen and c != 'css_match.CSSMatch.match_selectors' and f != 'css_match.CSSMatch.match_defined':
                     seen.add(c)
                     todo.append(c)
         extra = sorted(c for c in seen if c not in allowed and not c.endswith('>'))
